@@ -128,6 +128,23 @@ func runSched(inp schedInput) (out map[string]any) {
 			drv = rt.Start(k, func() any { return c.pop(end) })
 		case "close":
 			drv = rt.Start(k, func() any { return c.close() })
+		case "add+close", "add+pop", "pop+add":
+			// two operations back to back from one goroutine, no quiescent point in between
+			ops, v := strings.Split(st.Op, "+"), st.Arg
+			drv = rt.Start(k, func() any {
+				var rs []string
+				for _, o := range ops {
+					switch o {
+					case "add":
+						rs = append(rs, c.add(v))
+					case "pop":
+						rs = append(rs, c.pop("n"))
+					case "close":
+						rs = append(rs, c.close())
+					}
+				}
+				return strings.Join(rs, "+")
+			})
 		default:
 			panic("unknown step " + st.Op)
 		}
